@@ -36,6 +36,7 @@ type tr struct {
 	params map[string]string // Go name (or recv.Field) -> Gallina binder
 	order  []string          // binders in order of first use
 	types  map[string]string
+	frag   bool // start at the builder declaration, stop at `x, err := b.Bytes()` (text after it is recorded)
 }
 
 func fail(fset *token.FileSet, n ast.Node, msg string) {
@@ -86,13 +87,25 @@ var lpWidths = map[string]int{"AddUint8LengthPrefixed": 1, "AddUint16LengthPrefi
 // stmts translates a statement list applied to the builder term cur
 func (t *tr) stmts(list []ast.Stmt, cur string) (string, string) {
 	ret := ""
-	for _, s := range list {
+	for i, s := range list {
 		switch x := s.(type) {
+		case *ast.DeclStmt:
+			if src(t.fset, x) != "var b cryptobyte.Builder" {
+				fail(t.fset, s, "declaration")
+			}
 		case *ast.AssignStmt:
 			var b bytes.Buffer
 			printer.Fprint(&b, t.fset, x)
 			if b.String() == "b := &cryptobyte.Builder{}" {
 				break
+			}
+			// x, err := b.Bytes(): the builder is finished; what follows only wraps the bytes
+			if t.frag && len(x.Rhs) == 1 && src(t.fset, x.Rhs[0]) == "b.Bytes()" {
+				var parts []string
+				for _, r := range list[i:] {
+					parts = append(parts, strings.Join(strings.Fields(src(t.fset, r)), " "))
+				}
+				return cur, strings.Join(parts, " ; ")
 			}
 			// b := cryptobyte.NewBuilder(x): the builder starts with the bytes of x
 			if len(x.Lhs) == 1 && len(x.Rhs) == 1 && x.Tok == token.DEFINE {
@@ -164,6 +177,17 @@ func (t *tr) stmts(list []ast.Stmt, cur string) (string, string) {
 			if x.Init != nil {
 				fail(t.fset, s, "if with init")
 			}
+			// if <comparisons> { b.SetError(...); return }: the rest of this block runs only otherwise
+			if len(x.Body.List) == 2 && x.Else == nil && strings.HasPrefix(src(t.fset, x.Body.List[0]), "b.SetError(") {
+				if r, ok := x.Body.List[1].(*ast.ReturnStmt); ok && len(r.Results) == 0 {
+					c := t.zcond(x.Cond)
+					rest, r2 := t.stmts(list[i+1:], cur)
+					if r2 != "" {
+						fail(t.fset, s, "return after a SetError guard")
+					}
+					return fmt.Sprintf("(if %s then (b_set_error %s) else %s)", c, cur, rest), ""
+				}
+			}
 			cond := ""
 			switch c := x.Cond.(type) {
 			case *ast.UnaryExpr:
@@ -218,6 +242,61 @@ func (t *tr) stmts(list []ast.Stmt, cur string) (string, string) {
 	return cur, ret
 }
 
+// zcond: a condition over signed integers (Z): comparisons of a parameter/field with constants, joined by || and &&
+func (t *tr) zcond(e ast.Expr) string {
+	switch x := e.(type) {
+	case *ast.ParenExpr:
+		return t.zcond(x.X)
+	case *ast.BinaryExpr:
+		switch x.Op {
+		case token.LOR:
+			return "(" + t.zcond(x.X) + " || " + t.zcond(x.Y) + ")"
+		case token.LAND:
+			return "(" + t.zcond(x.X) + " && " + t.zcond(x.Y) + ")"
+		}
+		ops := map[token.Token]string{token.EQL: "(%s =? %s)%%Z", token.NEQ: "negb (%s =? %s)%%Z", token.LSS: "(%s <? %s)%%Z",
+			token.GTR: "(%[2]s <? %[1]s)%%Z", token.LEQ: "(%s <=? %s)%%Z", token.GEQ: "(%[2]s <=? %[1]s)%%Z"}
+		f, ok := ops[x.Op]
+		if !ok {
+			fail(t.fset, e, "operator in a condition")
+		}
+		return fmt.Sprintf(f, t.zval(x.X), t.zval(x.Y))
+	}
+	fail(t.fset, e, "condition")
+	return ""
+}
+
+func (t *tr) zval(e ast.Expr) string {
+	switch x := e.(type) {
+	case *ast.BasicLit:
+		if x.Kind == token.INT {
+			v, err := strconv.ParseUint(x.Value, 0, 63)
+			if err == nil {
+				return fmt.Sprintf("%d", v)
+			}
+		}
+	case *ast.BinaryExpr: // constant shifts such as 1<<40
+		if x.Op == token.SHL {
+			a, oka := x.X.(*ast.BasicLit)
+			b, okb := x.Y.(*ast.BasicLit)
+			if oka && okb {
+				av, e1 := strconv.ParseUint(a.Value, 0, 63)
+				bv, e2 := strconv.ParseUint(b.Value, 0, 63)
+				if e1 == nil && e2 == nil && bv < 62 && av < 1<<(62-bv) {
+					return fmt.Sprintf("%d", av<<bv)
+				}
+			}
+		}
+	case *ast.Ident, *ast.SelectorExpr:
+		return t.binder(x.(ast.Expr), "Z")
+	}
+	fail(t.fset, e, "operand of a comparison (conversions are not accepted here)")
+	return ""
+}
+
+// coqQuote renders a Coq string literal (a double quote is doubled; nothing else is escaped)
+func coqQuote(s string) string { return "\"" + strings.ReplaceAll(s, "\"", "\"\"") + "\"" }
+
 func main() {
 	if len(os.Args) < 3 {
 		fmt.Fprintln(os.Stderr, "usage: translate out.v file.go:func:name ...")
@@ -227,12 +306,16 @@ func main() {
 	out.WriteString("(* GENERATED by /verif/translate from /repo's current source on every check run — do not edit.\n")
 	out.WriteString("   Each definition is the cryptobyte.Builder term the named Go function builds, as a function of\n")
 	out.WriteString("   the values it reads (g_<name>); gen_<f>_returns records the Go return expression. *)\n")
-	out.WriteString("From SL Require Import Base.Bytes Base.Cryptobyte.\nFrom Coq Require Import String List.\nOpen Scope N_scope.\n\n")
+	out.WriteString("From SL Require Import Base.Bytes Base.Cryptobyte Base.ReaderGen.\nFrom Coq Require Import String List Bool.\nOpen Scope N_scope.\n\n")
 	for _, spec := range os.Args[2:] {
 		f := strings.Split(spec, ":")
-		if len(f) != 3 {
+		if len(f) != 3 && len(f) != 4 {
 			fmt.Fprintln(os.Stderr, "bad spec", spec)
 			os.Exit(2)
+		}
+		mode := ""
+		if len(f) == 4 {
+			mode = f[3]
 		}
 		fset := token.NewFileSet()
 		file, err := parser.ParseFile(fset, f[0], nil, 0)
@@ -250,7 +333,11 @@ func main() {
 			fmt.Fprintf(os.Stderr, "translate: function %s not found in %s\n", f[1], f[0])
 			os.Exit(2)
 		}
-		t := &tr{fset: fset, params: map[string]string{}, types: map[string]string{}}
+		if mode == "reader" {
+			translateReader(&out, fset, file, fd, f[0], f[2])
+			continue
+		}
+		t := &tr{fset: fset, params: map[string]string{}, types: map[string]string{}, frag: mode == "fragment"}
 		if fd.Recv != nil && len(fd.Recv.List) == 1 && len(fd.Recv.List[0].Names) == 1 {
 			t.recv = fd.Recv.List[0].Names[0].Name
 		}
@@ -259,14 +346,29 @@ func main() {
 				t.params[nm.Name] = "param"
 			}
 		}
-		term, ret := t.stmts(fd.Body.List, "b_empty")
+		body := fd.Body.List
+		if t.frag { // start at the declaration of the builder b
+			start := -1
+			for i, st := range body {
+				if x := src(fset, st); x == "var b cryptobyte.Builder" || x == "b := &cryptobyte.Builder{}" {
+					start = i
+					break
+				}
+			}
+			if start < 0 {
+				fmt.Fprintf(os.Stderr, "translate: no builder declaration in %s\n", f[1])
+				os.Exit(2)
+			}
+			body = body[start:]
+		}
+		term, ret := t.stmts(body, "b_empty")
 		fmt.Fprintf(&out, "(* %s: func %s *)\nDefinition %s", f[0][strings.LastIndex(f[0], "/")+1:], f[1], f[2])
 		sort.Strings(t.order) // binders in alphabetical order: a reordering of the Go code does not change the signature
 		for _, n := range t.order {
 			fmt.Fprintf(&out, " (%s : %s)", n, t.types[n])
 		}
 		fmt.Fprintf(&out, " : builder :=\n  %s.\n", term)
-		fmt.Fprintf(&out, "Definition %s_returns : string := %s%%string.\n\n", f[2], strconv.Quote(ret))
+		fmt.Fprintf(&out, "Definition %s_returns : string := %s%%string.\n\n", f[2], coqQuote(ret))
 	}
 	if err := os.WriteFile(os.Args[1], out.Bytes(), 0o644); err != nil {
 		fmt.Fprintln(os.Stderr, err)
